@@ -377,9 +377,11 @@ def d3(ctx, rep):
         from ..dictkeys import Env, deref, stored_params
         ds = stored_params(ctx, fc, c)
         dk = ds[0][1] if ds else None
+        fit_values = None
         if not ds and any(isinstance(x, ast.Call) and is_self_attr(x.func, fc.self_name, '_fit') for x in walk_no_nested(fc.node)):
             fds = stored_params(ctx, c.need('_fit'), c)
             dk = fds[0][1] if fds else None
+            fit_values = dict(dk.values or {}) if dk is not None else None
             if dk is not None and dk.keys is not None:
                 dk = type(dk)(dk.keys, dk.order, None, {})  # values come from the optimiser: not constants
         keys = set(dk.keys) if dk is not None and dk.keys is not None else None
@@ -433,6 +435,21 @@ def d3(ctx, rep):
                               f"{c.name}: _extract_constant reads '{k}', where _fit_constant does not store the constant", construct=f'{c.name}._extract_constant')
             elif k and keys is not None and k not in keys:
                 rep.bad('D3.degenerate', exc, erets[0], f"{c.name}: _extract_constant reads '{k}', which _fit_constant does not fill", construct=f'{c.name}._extract_constant')
+            elif k and fit_values is not None and k in fit_values:
+                # _fit_constant leaves the value the ordinary _fit computed: is that an element of SciPy's fit result?
+                fitm = c.need('_fit')
+                env_, ve = fit_values[k]
+                src = None
+                if isinstance(ve, ast.Name):
+                    for a_ in walk_no_nested(fitm.node):
+                        if isinstance(a_, ast.Assign) and isinstance(a_.targets[0], (ast.Tuple, ast.List)) and any(isinstance(y, ast.Name) and y.id == ve.id for y in a_.targets[0].elts) \
+                                and isinstance(a_.value, ast.Call) and call_name(a_.value) == 'fit':
+                            src = a_
+                if src is not None:
+                    rep.bad('D3.degenerate', exc, erets[0], f"{c.name}: _fit_constant keeps under '{k}' the estimate of `{short(src.value, 40)}` on constant data (an optimiser's output, "
+                            "arbitrary for degenerate input) and _extract_constant reads it back: from_dict(to_dict(m)) is a point mass at a different value", construct=f'{c.name}._extract_constant')
+                else:
+                    rep.undecided('D3.degenerate', exc, erets[0], f"{c.name}: what _fit_constant stores under '{k}' is not derivable", construct=f'{c.name}._extract_constant')
             elif k:
                 rep.undecided('D3.degenerate', exc, erets[0], f"{c.name}: what _fit_constant stores under '{k}' is not derivable", construct=f'{c.name}._extract_constant')
 
